@@ -82,9 +82,14 @@ type gcRunner struct {
 	decs          []message.Subscriber
 	closeReturned chan struct{}
 	closeOnce     sync.Once
-	subOK         map[string]int  // subscriptions whose Subscribe returned ok -> number of decorators
-	innerClosed   map[string]bool // gochannel.sub.close.closed seen
-	decClosed     map[string]int  // decorator.sub.closed seen (count)
+	expMin        map[string]map[string]bool // per subscription: messages that certainly have to arrive (harness' lower bound; used only for waiting)
+	ackedBy       map[string]map[string]bool
+	subTopic      map[string]string
+	subLive       map[string]bool   // Subscribe returned ok, not cancelled, acks eventually
+	pubTopic      map[string]string // message -> topic, for publishes that started
+	subOK         map[string]int    // subscriptions whose Subscribe returned ok -> number of decorators
+	innerClosed   map[string]bool   // gochannel.sub.close.closed seen
+	decClosed     map[string]int    // decorator.sub.closed seen (count)
 }
 
 func gcMetaSnapshot(m *message.Message) string {
@@ -115,6 +120,7 @@ func (x *gcRunner) publish(pname, topic string, n int, batch bool) {
 			continue
 		}
 		pc := fmt.Sprintf("%s.%d", pname, atomic.AddInt32(&x.pseq, 1))
+		x.noteStart(mid, topic)
 		x.emit("pubstart", "p", pc, "m", mid, "topic", topic, "payload", string(msg.Payload), "meta", map[string]string{"k": mid, "empty": ""})
 		var err error
 		p, v := Guarded(func() { err = x.g.Publish(topic, msg) })
@@ -131,6 +137,7 @@ func (x *gcRunner) publish(pname, topic string, n int, batch bool) {
 			pc := fmt.Sprintf("%s.%d", pname, atomic.AddInt32(&x.pseq, 1))
 			pcs = append(pcs, pc)
 			mid := x.short(msg.UUID)
+			x.noteStart(mid, topic)
 			x.emit("pubstart", "p", pc, "m", mid, "topic", topic, "payload", string(msg.Payload), "meta", map[string]string{"k": mid, "empty": ""})
 		}
 		var err error
@@ -175,6 +182,17 @@ func (x *gcRunner) subscribe(s gcSub) {
 	if err == nil {
 		x.mu.Lock()
 		x.subOK[s.Name] = s.Decorators
+		x.subTopic[s.Name] = s.Topic
+		x.subLive[s.Name] = s.Behav != "neverack" && !s.StopReading && s.CancelAfter == 0 && s.CancelAt == 0
+		x.expMin[s.Name] = map[string]bool{}
+		x.ackedBy[s.Name] = map[string]bool{}
+		if x.sc.Persistent { // everything published so far on the topic is replayed
+			for m, tp := range x.pubTopic {
+				if tp == s.Topic {
+					x.expMin[s.Name][m] = true
+				}
+			}
+		}
 		x.mu.Unlock()
 	}
 	x.emit("subend", "s", s.Name, "ok", err == nil)
@@ -257,6 +275,11 @@ func (x *gcRunner) consume(s gcSub, ch <-chan *message.Message, cnt *int32, canc
 		}
 		x.emit("ack", "s", s.Name, "m", mid)
 		msg.Ack()
+		x.mu.Lock()
+		if x.ackedBy[s.Name] != nil {
+			x.ackedBy[s.Name][mid] = true
+		}
+		x.mu.Unlock()
 		mctx := msg.Context()
 		go func() {
 			select {
@@ -312,11 +335,42 @@ func (x *gcRunner) waitIdle(quiet, bound time.Duration) {
 	}
 }
 
-// expectation used ONLY to decide how long to wait before declaring quiescence
+// noteStart: a Publish of m on topic is about to start; every live subscription whose Subscribe
+// already returned must receive it (the harness' own lower bound, used ONLY to decide how long to
+// wait before declaring quiescence -- the verdict is the specification's).
+func (x *gcRunner) noteStart(m, topic string) {
+	x.mu.Lock()
+	x.pubTopic[m] = topic
+	for sn, tp := range x.subTopic {
+		if tp == topic {
+			x.expMin[sn][m] = true
+		}
+	}
+	x.mu.Unlock()
+}
+
 func (x *gcRunner) settledEnough() bool {
 	x.mu.Lock()
 	defer x.mu.Unlock()
+	for sn, live := range x.subLive {
+		if !live {
+			continue
+		}
+		for m := range x.expMin[sn] {
+			if !x.ackedBy[sn][m] {
+				return false
+			}
+		}
+	}
 	return true
+}
+
+// waitSettled waits (bounded) until the harness' lower bound of deliveries has been acked.
+func (x *gcRunner) waitSettled(bound time.Duration) {
+	deadline := time.Now().Add(bound)
+	for time.Now().Before(deadline) && !x.settledEnough() {
+		time.Sleep(2 * time.Millisecond)
+	}
 }
 
 func waitWG(wg *sync.WaitGroup) chan struct{} {
@@ -351,7 +405,8 @@ func (x *gcRunner) fire(ev string) {
 func gcRun(r *tr.Run, sc gcScenario, rng *rand.Rand) (gateReached bool) {
 	x := &gcRunner{r: r, sc: sc, prefix: fmt.Sprintf("r%d-", r.ID), seen: map[*message.Message]bool{}, orig: map[string]*message.Message{},
 		snap: map[string]string{}, recvCnt: map[string]*int32{}, cancels: map[string]context.CancelFunc{}, closeReturned: make(chan struct{}),
-		subOK: map[string]int{}, innerClosed: map[string]bool{}, decClosed: map[string]int{}}
+		subOK: map[string]int{}, innerClosed: map[string]bool{}, decClosed: map[string]int{},
+		expMin: map[string]map[string]bool{}, ackedBy: map[string]map[string]bool{}, subTopic: map[string]string{}, subLive: map[string]bool{}, pubTopic: map[string]string{}}
 	defer sched.Observe(x.prefix, func(point string, ids []string) {
 		switch point {
 		case "gochannel.sub.close.closed":
@@ -537,6 +592,7 @@ func (x *gcRunner) body() (gateReached bool) {
 	x.mu.Unlock()
 	if allReturned && atomic.LoadInt32(&x.closedN) == 0 {
 		// retry the completeness wait a few times: deliveries are asynchronous
+		x.waitSettled(HangBound)
 		x.waitIdle(60*time.Millisecond, 5*time.Second)
 		x.emit("quiesce", "origintact", intact)
 	}
